@@ -138,6 +138,7 @@ class World:
         self.vars = []          # live Variable handles
         self.fs = SimFS()       # durable storage for C19 checkpoints
         self.last_applied = None
+        self.matcache = {}      # shared material objects of this lens
         self.shape = []
 
     # ---- helpers
@@ -204,7 +205,7 @@ class World:
     # ---- build ops
     def _build(self, op):
         self.model.apply_build(op)      # NotApplicable before SUT is touched
-        self.call(sut.apply_build, self.lens, op)
+        self.call(sut.apply_build, self.lens, op, self.matcache)
 
     def op_add_surface(self, op):
         if self.model.synced:
@@ -570,6 +571,94 @@ class World:
         self.call(self.lens.scale_system, op['s'])
         self.stats['state_changes'] += 1
         self.probe('scale')
+        if self.prop == 'C07':
+            self.compare_with_scaled_twin(op)
+
+    def compare_with_scaled_twin(self, op):
+        """"... produces exactly that scaled lens": the lens must now behave
+        like a lens built from scratch with the scaled prescription (what was
+        traced, cached or edited before the scaling must not matter)."""
+        ops = self.model.to_build_ops()
+        if ops is None:
+            self.probe('scaled_twin_not_expressible')
+            return
+        try:
+            twin = sut.new_lens(ops, share=False)
+        except Exception:
+            self.probe('scaled_twin_build_failed')
+            return
+        rays = op.get('rays') or [[0.0, 0.0, 0.0, 1.0, 0],
+                                  [0.0, 1.0, 0.3, -0.7, 0]]
+        nw = len(self.lens.wavelengths.wavelengths)
+        Hx = np.array([r[0] for r in rays], dtype=float)
+        Hy = np.array([r[1] for r in rays], dtype=float)
+        Px = np.array([r[2] for r in rays], dtype=float)
+        Py = np.array([r[3] for r in rays], dtype=float)
+        w = self.lens.wavelengths.wavelengths[rays[0][4] % nw].value
+        # conditioning, measured rather than guessed: a second twin whose
+        # gaps are off by 1e-12 relative (far more than the round-off the
+        # edit history leaves in the real lens' positions) shows how much the
+        # traced quantities respond to such noise
+        jops = [dict(o) for o in ops]
+        for o in jops:
+            if o.get('op') == 'add_surface' and \
+                    math.isfinite(o.get('thickness', 0)):
+                o['thickness'] = o['thickness'] * (1 + 1e-12)
+        try:
+            jtwin = sut.new_lens(jops, share=False)
+        except Exception:
+            self.probe('scaled_twin_build_failed')
+            return
+        out = []
+        for L in (self.lens, twin, jtwin):
+            try:
+                with quiet(), warnings.catch_warnings():
+                    warnings.simplefilter('ignore')
+                    L.trace_generic(Hx.copy(), Hy.copy(), Px.copy(),
+                                    Py.copy(), w)
+                sg = L.surface_group
+                out.append({q: np.array(getattr(sg, q)) for q in
+                            ('x', 'y', 'z', 'L', 'M', 'N', 'opd',
+                             'intensity')})
+            except Exception as e:
+                out.append(('raised', type(e).__name__))
+        a, b, bj = out
+        self.stats['oracle_checks'] += 1
+        if isinstance(bj, tuple) and not isinstance(b, tuple):
+            self.probe('scaled_twin_rays_failed')
+            return
+        if isinstance(a, tuple) or isinstance(b, tuple):
+            if isinstance(a, tuple) != isinstance(b, tuple):
+                raise Violation('behaviour', 'C07/scale/behaviour/raises',
+                                f'trace on the scaled lens: {a if isinstance(a, tuple) else "ok"}; '
+                                f'on a lens built with the scaled '
+                                f'prescription: '
+                                f'{b if isinstance(b, tuple) else "ok"}')
+            return
+        if not all(np.isfinite(v[q]).all() for v in (a, b, bj) for q in a):
+            # a failing ray amplifies round-off without bound: only batches
+            # in which every ray survives everywhere are compared
+            self.probe('scaled_twin_rays_failed')
+            return
+        for q in a:
+            if a[q].shape != b[q].shape:
+                ok = False
+            else:
+                big = np.abs(b[q]).max() if b[q].size else 0.0
+                resp = np.abs(b[q] - bj[q]).max() if b[q].size else 0.0
+                # smooth ill-conditioning is covered by the measured
+                # response; the fixed part covers the noise of the conic
+                # intersection formula itself (cancellation for near-
+                # parabolic surfaces: ~1e-10, not a function of the input)
+                ok = bool((np.abs(a[q] - b[q]) <= 10 * resp + 1e-6 * big +
+                           1e-8 * (1 + self.model.zscale)).all())
+            if not ok:
+                raise Violation('behaviour', f'C07/scale/behaviour/{q}',
+                                f'after scale_system({op["s"]}) the lens '
+                                f'traces differently from a lens built with '
+                                f'the scaled prescription: {q} = '
+                                f'{a[q].tolist()} vs {b[q].tolist()}')
+        self.probe('scaled_twin_compared')
 
 
     # ---- C19: checkpoint = save, reload, compare, optionally restart
@@ -1234,7 +1323,11 @@ def gen_edit(ch, w, sw):
         if sw.get('last_scale') and ch.chance(0.3):
             s = 1.0 / sw['last_scale']
         sw['last_scale'] = s
-        return {'op': 'scale', 's': s}
+        rays = [[0.0, ch.pick([0.0, 0.7, 1.0, -1.0]),
+                 ch.rounded(ch.uniform(-1, 1), 3),
+                 ch.rounded(ch.uniform(-1, 1), 3), 0]
+                for _ in range(ch.randint(3, 9))]
+        return {'op': 'scale', 's': s, 'rays': rays}
     if kind == 'insert':
         k = ch.randint(1, n - 1)
         op = {'op': 'insert', 'index': k,
